@@ -214,26 +214,31 @@ fn one_case<S: Smp, const N: usize, W: WindowFn<f64, Output = f64>>(st: &mut Str
         // ---- oracle, from the property text: bin >= 2, hop >= 1
         let short = if op.len() > 400 { format!("{}…", &op[..400]) } else { op.clone() };
         // "yields exactly floor((L-b)/h)+1 chunks when L >= b and none otherwise"
-        let want_chunks = if l >= bin { (l - bin) / hop + 1 } else { 0 };
+        let want_chunks = if l >= bin { (l - bin) / hop + 1 } else { 0 }; // (l - bin) / hop <= l: no overflow for any hop >= 1
         if !ended || n_chunks != want_chunks { st.oracle_fail("number of chunks", &short, &want_chunks.to_string(), &format!("{}{}", n_chunks, if ended { "" } else { " (not ended)" })); } else { st.oracle_ok(1); }
         // "the first b frames of chunk k being frames k*h .. k*h+b-1 each scaled by the window value for its position"
-        let win: Vec<<[S; N] as Frame>::Float> = Window::<<[S; N] as Frame>::Float, W>::new(bin).take(bin).collect();
+        // (a window is only needed when a chunk exists, i.e. bin <= L; bin may be astronomically large otherwise)
+        let win: Vec<<[S; N] as Frame>::Float> = if n_chunks > 0 && bin <= l { Window::<<[S; N] as Frame>::Float, W>::new(bin).take(bin).collect() } else { Vec::new() };
         for (k, (_, c)) in run.iter().enumerate() {
             let Some(c) = c else { continue };
             if c.len() != bin { st.oracle_fail(&format!("chunk {} does not have bin frames", k), &short, &bin.to_string(), &c.len().to_string()); continue; }
             for j in 0..bin {
-                if k * hop + j >= l { st.oracle_fail("chunk reaches beyond the input", &short, "", ""); continue; }
-                let src = frames[k * hop + j];
+                let idx = (k as u128) * (hop as u128) + j as u128; // frame k*h + j, computed without overflow
+                if idx >= l as u128 { st.oracle_fail("chunk reaches beyond the input", &short, "", ""); continue; }
+                let src = frames[idx as usize];
                 let want: [S; N] = src.mul_amp(win[j]);
                 if want != c[j] && !(want.iter().zip(c[j].iter()).all(|(x, y)| x.as_f64().to_bits() == y.as_f64().to_bits())) {
-                    st.oracle_fail(&format!("chunk {} frame {} is not frame {} scaled by the window value for position {}", k, j, k * hop + j, j), &short,
+                    st.oracle_fail(&format!("chunk {} frame {} is not frame {} scaled by the window value for position {}", k, j, idx, j), &short,
                         &format!("{:?}", want.iter().map(|s| s.show()).collect::<Vec<_>>()), &format!("{:?}", c[j].iter().map(|s| s.show()).collect::<Vec<_>>()));
                 } else { st.oracle_ok(1); }
                 // against the closed form, in plain f64 (tolerance: one unit of the format + accumulation of the phase)
                 let ideal_w = if kind == "hann" { hann_formula(j as f64 / (bin as f64 - 1.0)) } else { 1.0 };
                 for ch in 0..N {
                     let ideal = src[ch].as_f64() * ideal_w;
-                    let tol = if S::NAME == "i16" { 1.01 } else if S::NAME == "f32" { 3e-7 } else { 1e-14 };
+                    // one unit of the format, plus the accumulated rounding of the f64 phase (bin steps of 1/(bin-1),
+                    // each within an ulp; |d hann/dp| <= pi) scaled by the sample's magnitude
+                    let acc = 8.0 * bin as f64 * f64::EPSILON * src[ch].as_f64().abs().max(1.0);
+                    let tol = acc + if S::NAME == "i16" { 1.01 } else if S::NAME == "f32" { 3e-7 } else { 1e-14 };
                     if !((c[j][ch].as_f64() - ideal).abs() <= tol) {
                         st.oracle_fail(&format!("chunk {} frame {} channel {} is not source*window(j/(b-1)) within {:e}", k, j, ch, tol), &short, &format!("{:e}", ideal), &format!("{:e}", c[j][ch].as_f64()));
                     } else { st.oracle_ok(1); }
@@ -248,6 +253,8 @@ fn one_case<S: Smp, const N: usize, W: WindowFn<f64, Output = f64>>(st: &mut Str
         }
         st.count(if l < bin { "L<b" } else if l == bin { "L==b" } else if (l - bin) % hop != 0 { "last_partial_hop" } else { "exact_fit" });
         if hop > l { st.count("h>L"); }
+        if hop > usize::MAX - l.max(bin.min(l + 1)) - 1 { st.count("hop_within_L_or_bin_of_usize_MAX"); }
+        if bin > l + 1 { st.count("bin_far_above_L"); }
         if hop > bin { st.count("hop>bin(gaps)"); } else if hop < bin { st.count("hop<bin(overlap)"); }
     } else {
         st.count(&format!("out_of_domain_bin{}_hop{}", bin.min(2), hop.min(1)));
@@ -280,6 +287,32 @@ fn run_wdr(a: &Args) {
         st.count("random_larger_shape");
         let two = rng.chance(1, 2);
         all_formats(&mut st, &mut rng, l, bin, hop, l + 2, true, two);
+    }
+    // EXTREME parameters inside the stated domain (b >= 2, h >= 1): hops at the top of usize, around L and L-b,
+    // bins around and far above L; size_hint is taken before the first next() and between all calls.
+    let m = usize::MAX;
+    let ls: Vec<usize> = if a.thorough() { (0..=24).collect() } else { vec![0, 1, 2, 3, 4, 7, 16] };
+    for &l in &ls {
+        let mut bins: Vec<usize> = vec![2, 3, l.saturating_sub(1), l, l + 1, l + 2, 2 * l + 3, m, m - 1, m - l, m / 2 + 1, 1usize << 32];
+        bins.retain(|&b| b >= 2); bins.sort(); bins.dedup();
+        for &bin in &bins {
+            let mut hops: Vec<usize> = vec![1, 2, l.saturating_sub(bin.min(l)), l.saturating_sub(bin.min(l)) + 1, l.saturating_sub(1), l, l + 1, l + 2,
+                m, m - 1, m - 2, m - bin.min(m - 1), m - bin.min(m - 1) + 1, (m - bin.min(m - 1)).saturating_sub(1), m - l, (m - l).saturating_sub(1), m - l.saturating_sub(bin.min(l)),
+                m / 2, m / 2 + 1, m / 2 + 2, 1usize << 32, (1usize << 32) - 1, 1usize << 63];
+            hops.retain(|&h| h >= 1); hops.sort(); hops.dedup();
+            for &hop in &hops {
+                st.count("extreme_parameter_shape");
+                all_formats(&mut st, &mut rng, l, bin, hop, l + 2, true, (l + bin % 7 + hop % 5) % 2 == 1);
+            }
+        }
+    }
+    // LARGE shapes (thousands of frames / a bin of thousands), a few
+    let large: Vec<(usize, usize, usize)> = if a.thorough() { vec![(5000, 2048, 512), (4096, 4096, 1), (6000, 1000, 999), (3000, 3001, 7), (8192, 1024, 1024), (2500, 2, 1)] } else { vec![(5000, 2048, 512), (2100, 2100, 3)] };
+    for (l, bin, hop) in large {
+        st.count("large_shape");
+        one_case::<f64, 1, Hann>(&mut st, &mut rng, "hann", l, bin, hop, l + 2, true);
+        one_case::<i16, 2, Hann>(&mut st, &mut rng, "hann", l, bin, hop, l + 2, true);
+        one_case::<f32, 1, Rectangle>(&mut st, &mut rng, "rect", l, bin, hop, l + 2, true);
     }
     // outside the property's domain (bin 0/1, hop 0): model comparison only, bounded number of nexts
     for l in 0..=5usize { for bin in 0..=3usize { for hop in 0..=2usize {
